@@ -3,7 +3,7 @@
 # the committed evidence files are not touched).  usage: tools/thorough_all.sh [budget seconds per check]
 B=${1:-1500}
 mkdir -p thorough_out
-for p in C09 C20 C19 C08 C04 C05 C07 C01 C02 C15 C13; do
+for p in ${PROPS:-C09 C20 C19 C08 C04 C05 C07 C01 C02 C15 C13}; do
   VERIF_BUDGET_S=$B VERIF_EVIDENCE_DIR=$PWD/thorough_out/ev VERIF_REPLAY_DIR=$PWD/thorough_out/rp \
     /venv/bin/python -m sim.check $p --tier thorough > thorough_out/$p.log 2>&1
   echo "$p rc=$? $(grep -v KNOWN thorough_out/$p.log | tail -1)"
